@@ -44,7 +44,7 @@ GROUP_RESIDUES = ("ARG", "ASN", "ASP", "CYS", "GLN", "GLU", "HIS", "LYS", "SER",
 
 def generate(tier, seed):
     cases = []
-    nrand = 800 if tier == "quick" else 12000
+    nrand = 800 if tier == "quick" else 60000
     for k in range(nrand):
         cases.append({"kind": "random", "seed": "%d:r:%d" % (seed, k), "cost": 10})
     # systematic single and pair deletions
@@ -67,12 +67,12 @@ def generate(tier, seed):
             for k in ((1, 2, 3) if tier == "thorough" else (rng.choice((1, 2, 3)),)):
                 cases.append({"kind": "keepk", "res": T, "pos": pos, "k": k,
                               "seed": "%d:k:%s:%s:%d" % (seed, T, pos, k), "cost": 4})
-    nsp = 60 if tier == "quick" else 1500
+    nsp = 60 if tier == "quick" else 7500
     for k in range(nsp):
         cases.append({"kind": "special", "mode": ("backbone-only", "sidechains-only", "no-termini", "oxt-without-c",
                                                   "ring-atoms-missing", "collinear")[k % 6],
                       "seed": "%d:sp:%d" % (seed, k), "cost": 8})
-    nhet = 60 if tier == "quick" else 2000
+    nhet = 60 if tier == "quick" else 10000
     for k in range(nhet):
         cases.append({"kind": "hetero", "seed": "%d:h:%d" % (seed, k), "cost": 20})
     for k, m in enumerate(("empty", "remark-only", "water-only", "hydrogen-only", "ext-xyz", "ext-none", "ext-gz",
